@@ -306,6 +306,10 @@ func c13PointsBody(t *testing.T, nBatches int, twoPoint bool, storedFlags ...boo
 	red := []int{}
 	for i, c := range conds {
 		if c.c.NodeID == "" && c.c.PointKey == "" && (c.c.PointType == "" || c.c.Operator == data.PointValueGreaterThan || c.c.Operator == data.PointValueContains) {
+			if strings.Contains(c.name, "(leftover fields)") && !(c.c.ValueType == data.PointValueOnOff && c.c.Operator == data.PointValueNotEqual) &&
+				!(c.c.ValueType == data.PointValueNumber && c.c.Operator == data.PointValueGreaterThan) {
+				continue // (left-over fields are a matter of one condition; two of them stand for the rest in the pairs)
+			}
 			red = append(red, i)
 		}
 	}
